@@ -48,6 +48,7 @@ package main
 //@   requires cmd.Stderr != nil && cmd.Stdout != nil
 //@   assigns outs
 //@   ensures [C12] forall w Iface :: w != cmd.Stderr && w != cmd.Stdout ==> outs[w] == old(outs)[w]
+//@   at call github.com/pkg/diff.Text assert [C12] the-diff-leads-from-the-bytes-on-disk-to-the-bytes-the-other-modes-emit: arg0 == filename0 && arg1 == filename0 && boxedSlice(arg2) == originalContent0 && boxedSlice(arg3) == modifiedContent0 && arg4 == cmd.Stdout
 
 //@ func (r *patchRunner) Apply(filename, f) (fout, comments, matched)
 //@   requires typing: snapEnvOK()
@@ -60,7 +61,7 @@ package main
 //@   at call (*engine.Change).Replace set changelogsUsed = changelogsUsed + 1
 //@   at call (*astdiff.Snapshot).Diff assert [C17] the-snapshot-is-advanced-with-the-regions-of-this-change: unbox(arg2, "S_engine_Changelog") == lastChangelog
 //@   at call main.cleanupFilePos assert [C17] only-the-regions-of-this-change-are-cleaned-up: arg1 == lastChangelog
-//@   assigns r.errors, elems(r.errors), group(ast), matchCount, replFail, sitesReplaced, restructured, lastChangelog, changelogsMade, changelogsUsed, allof("F.S_astdiff_value.Comments")
+//@   assigns r.errors, elems(r.errors), group(ast), matchCount, replFail, sitesReplaced, restructured, inspections, lastChangelog, changelogsMade, changelogsUsed, allof("F.S_astdiff_value.Comments")
 //@   ensures [C16] recorded-errors-are-errors: forall i int {r.errors[i]} :: 0 <= i && i < len(r.errors) ==> r.errors[i] != nil
 //@   ensures [C06,C08,C09] matched-has-file: matched ==> fout != nil
 //@   ensures [C06] matched-only-after-match: matched ==> matchCount > old(matchCount)
@@ -77,7 +78,7 @@ package main
 //@     invariant matched ==> fout != nil
 //@     invariant matched ==> matchCount > old(matchCount)
 //@     invariant matchCount >= old(matchCount)
-//@     invariant replFail == old(replFail)
+//@     invariant [C03,C05,C07,C09,C11,C12,C16] a-file-is-abandoned-as-soon-as-a-replacement-fails: replFail == old(replFail)
 //@     invariant len(r.errors) >= old(len(r.errors))
 //@   loop 1
 //@     invariant snap != nil && snap.value != nil && wfV(snap.value)
@@ -89,7 +90,7 @@ package main
 //@     invariant matched ==> fout != nil
 //@     invariant matched ==> matchCount > old(matchCount)
 //@     invariant matchCount >= old(matchCount)
-//@     invariant replFail == old(replFail)
+//@     invariant [C03,C05,C07,C09,C11,C12,C16] a-file-is-abandoned-as-soon-as-a-replacement-fails: replFail == old(replFail)
 //@     invariant len(r.errors) >= old(len(r.errors))
 
 // The filepath.Walk callback of findGoFiles: which entries are collected, which
@@ -143,6 +144,11 @@ package main
 //@   at call go/parser.ParseFile#0 assert [C12,C14] the-file-is-parsed-into-the-file-set-the-patches-were-compiled-with: arg0 == ret("go/token.NewFileSet", 0)
 //@   at call go/format.Node assert [C12,C14] printed-with-the-same-file-set: arg1 == ret("go/token.NewFileSet", 0)
 //@   at call go/parser.ParseFile#0 set echoMark = echoes
+//@   at call go/parser.ParseFile#0 set emitMark = emissions
+//@   at call (*main.mainCmd).preview set emissions = emissions + 1
+//@   at call io.Writer.Write set emissions = emissions + 1
+//@   at call os.WriteFile set emissions = emissions + 1
+//@   at call (*log.Logger).Printf where arg1 is "%s: patched" assert [C06,C12] a-patched-file-was-emitted-exactly-once: ok && emissions == emitMark + 1
 //@   at call io.Writer.Write set echoes = echoes + 1
 //@   at call (*log.Logger).Printf where arg1 is "%s: skipped" assert [C06] print-only-echoes-an-unmatched-file: !ok && (opts.Print ==> echoes == echoMark + 1) && (!opts.Print ==> echoes == echoMark)
 //@   at call io.Writer.Write assert [C06] echo-original: !ok ==> (opts.Print && arg0 == cmd.Stdout && string(arg1) == disk[filename])
@@ -155,6 +161,13 @@ package main
 //@   at call (*main.mainCmd).preview assert [C18] generated-skipped: !(opts.SkipGenerated && ret("main.checkGeneratedCode", 0))
 //@   at call (*main.mainCmd).printComments assert [C06,C12] only-matched: ok
 //@   at call (*main.patchRunner).Apply assert [C18] generated-skipped: !(opts.SkipGenerated && ret("main.checkGeneratedCode", 0))
+//@   at call main.findFiles set visitMark = filesRead
+//@   at call main.findFiles set filesListed = len(result0)
+//@   at call os.ReadFile set filesRead = filesRead + 1
+//@   at call os.ReadFile assert [C15] each-listed-file-is-read-under-its-resolved-path: arg0 == sourcePath.Absolute
+//@   at call io.Writer.Write set echoFailures = echoFailures + ite(result1 != nil, 1, 0)
+//@   at call go.uber.org/multierr.Combine assert [C15] every-listed-file-was-visited-once-unless-the-output-stream-failed: filesRead == visitMark + filesListed || echoFailures > old(echoFailures)
+//@   ensures [C15] the-run-ends-only-after-the-last-listed-file: filesRead == old(filesRead) || filesRead == visitMark + filesListed || echoFailures > old(echoFailures)
 //@   at call os.WriteFile set intended = store(intended, arg0, string(arg1))
 //@   at call os.ReadFile set runFailures = runFailures + ite(result1 != nil, 1, 0)
 //@   at call go/parser.ParseFile set runFailures = runFailures + ite(result1 != nil, 1, 0)
@@ -169,6 +182,7 @@ package main
 //@   ensures [C16] every-failed-file-is-in-the-returned-error: errCount(err) >= runFailures - old(runFailures)
 //@   loop 0
 //@     invariant [C12] dry-run-frame: (opts.Diff || opts.Print) ==> disk == old(disk)
+//@     invariant [C15] one-read-per-listed-file-so-far: filesRead == visitMark + #k && filesListed == len(files) && echoFailures >= old(echoFailures)
 //@     invariant errors.arr == 0 || (errors.arr != patchRunner.errors.arr && allocated(errors.arr))
 //@     invariant allocated(patchRunner.errors.arr)
 //@     invariant [C16] a-failed-file-leaves-an-error-behind: runFailures >= old(runFailures) && (runFailures > old(runFailures) ==> len(errors) > 0)
@@ -237,8 +251,9 @@ package main
 //@   ensures err == nil ==> wfProg(prog)
 
 //@ func (l *patchLoader) LoadReader(name, r) (err)
+//@   at call funcval:main.patchLoader.parseAndCompile assert [C13,C19] the-bytes-read-are-the-bytes-parsed-under-the-name-given: arg0 == l.fset && arg1 == name && arg2 == ret("io.ReadAll", 0, 0)
 //@   assigns l.progs, elems(l.progs)
-//@   ensures [C09] loaded-appended-last: err == nil ==> len(l.progs) == old(len(l.progs)) + 1
+//@   ensures [C09,C13] loaded-appended-last: err == nil ==> len(l.progs) == old(len(l.progs)) + 1
 //@   ensures [C09] appended-are-wellformed: forall i int {l.progs[i]} :: old(len(l.progs)) <= i && i < len(l.progs) ==> wfProg(l.progs[i])
 //@   ensures [C09] earlier-programs-kept-in-order: forall i int {l.progs[i]} :: 0 <= i && i < old(len(l.progs)) ==> l.progs[i] == old(l.progs[i])
 //@   ensures [C09,C16] failed-load-appends-nothing: err != nil ==> len(l.progs) == old(len(l.progs))
